@@ -10,6 +10,7 @@ package c08
 import (
 	"bytes"
 	"encoding/hex"
+	"fmt"
 	"math/rand"
 	"sort"
 	"sync"
@@ -122,13 +123,13 @@ func secretOf(t *testing.T, v any) tbls.PrivateKey {
 		b, _ := hex.DecodeString(maxSecretHex)
 		k, err := tblsconv.PrivkeyFromBytes(b)
 		if err != nil {
-			t.Fatalf("max secret: %v", err)
+			panic(fmt.Sprintf("max secret: %v", err))
 		}
 		return k
 	default:
 		k, err := tbls.GenerateInsecureKey(t, rand.New(rand.NewSource(int64(drv.Num(m["seed"])))))
 		if err != nil {
-			t.Fatalf("generate secret: %v", err)
+			panic(fmt.Sprintf("generate secret: %v", err))
 		}
 		return k
 	}
@@ -169,7 +170,7 @@ func runOne(t *testing.T, tr sink, sid int, sched []drv.Step) {
 		case "Combine":
 			doCombine(tr, st, step)
 		default:
-			t.Fatalf("unknown step %v", step)
+			panic(fmt.Sprintf("unknown step %v", step))
 		}
 	}
 }
